@@ -702,10 +702,12 @@ static void subject_reference(State &st, SubjectRef &s, int idx) {
   std::string buf;
   char tmp[256];
   ssize_t n;
+  g_waiting_for_grandchild++;
   while ((n = read(pfd[0], tmp, sizeof tmp)) > 0) buf.append(tmp, n);
   close(pfd[0]);
   int stt;
   waitpid(pid, &stt, 0);
+  g_waiting_for_grandchild--;
   unsigned long long ch = 0, ah = 0;
   int res = 0, cs = 0;
   if (sscanf(buf.c_str(), "ok %d %d %llu %llu", &res, &cs, &ch, &ah) == 4 && !ORC_COMPILE_RESULT_IS_FATAL(res)) {
